@@ -33,6 +33,10 @@ func c06kw(g *hgen) Val {
 		return vInt(7)
 	case 3:
 		return Val{K: "strer", S: "sk" + itoa(r.Intn(9))}
+	case 4:
+		if r.Bool(0.5) {
+			return Val{K: "strer", S: "", D: 1} // non-zero stringer, empty text
+		}
 	}
 	g.uniq++
 	return vStr("k" + itoa(g.uniq))
@@ -86,7 +90,13 @@ func (c06) Gen(r *Rng, tier string, run int) *Trace {
 	if r.Bool(0.5) {
 		g.emit(Op{Obj: s0, M: "SetParen", Args: []Val{vBool(true)}}, true)
 	}
-	stacks, conds := []int{s0, s1}, []int{inner}
+	// an incomplete Condition (keyword only): a perfectly good non-nil expression
+	g.tr.Objs = append(g.tr.Objs, ObjSpec{T: "IC"})
+	g.m.S = append(g.m.S, nil)
+	g.m.C = append(g.m.C, newMCond(ObjSpec{T: "IC"}, nil))
+	half := len(g.tr.Objs) - 1
+	g.emit(Op{Obj: half, M: "SetKeyword", Args: []Val{vStr("half")}}, true)
+	stacks, conds := []int{s0, s1}, []int{inner, half}
 	var c int
 	if r.Bool(0.3) {
 		g.tr.Objs = append(g.tr.Objs, ObjSpec{T: "IC"})
